@@ -243,3 +243,33 @@ package breaker
 //@ extern func (b Breaker) DoWithAcceptableCtx
 //@   ensures bdoCalls == old(bdoCalls) + 1 && bdoAcceptable == acceptable && result == bdoResult
 //@   modifies bdoCalls, bdoAcceptable, bdoResult, calls(req)
+
+// ---------------------------------------------------------------------------------------------
+// C01 named breakers: one breaker per name. The registry map is guarded by the package-level lock; between the read-locked
+// lookup and the write lock another goroutine may have registered the name, so the registration re-checks under the write
+// lock and never replaces a registered breaker (outcomes recorded through a replaced breaker would be lost to later calls
+// by that name).
+// ---------------------------------------------------------------------------------------------
+//@ lockinv global lock: forall(k.(string), implies(inDom(breakers, k), breakers[k] != nil))
+//@ guarded_by breakers
+//@ func GetBreaker
+//@   property C01
+//@   ghost at entry: wl = false
+//@   ghost at entry: had = false
+//@   ghost at entry: prev = nil
+//@   ghost at after Lock#0: wl = true
+//@   ghost at after Lock#0: had = inDom(breakers, name)
+//@   ghost at after Lock#0: prev = breakers[name]
+//@   ensures result != nil
+//@   ensures implies(wl && had, result == prev)
+//@   ensures implies(wl, inDom(breakers, name) && breakers[name] == result)
+// (trusted frame: constructing a breaker - options, name, window - does not touch the registry of named breakers)
+//@ func NewBreaker
+//@   trusted
+//@   ensures result != nil
+//@   modifies nothing
+//@   allocates
+//@ func WithName
+//@   property C01
+//@   modifies nothing
+//@   allocates
